@@ -92,6 +92,11 @@ func (c *lruSessionCache) Put(sessionKey string, cs *SessionState) {
 		return
 	}
 
+	if cs == nil {
+		// 删除一个不存在的键：无事可做（不得占用位置，更不得淘汰其他会话）
+		return
+	}
+
 	if c.q.Len() < c.capacity {
 		entry := &lruSessionCacheEntry{sessionKey, cs}
 		c.m[sessionKey] = c.q.PushFront(entry)
